@@ -70,7 +70,7 @@ class C18(Prop):
                    "MemCopyEventFilter is exercised only where a symbol table is available (it compares symbol ids; on decoded frames without a table it documents an empty result)"]
 
     def gen_case(self, rng, k, tier):
-        cfg = gen.GenCfg(n_ranks=rng.choice([1, 2, 3]), n_steps=rng.choice([0, 1, 2, 3]), first_step_no=rng.choice([0, 5]),
+        cfg = gen.GenCfg(n_ranks=rng.choice([1, 2, 3]), n_steps=rng.choice([0, 1, 2, 3]), first_step_no=rng.choice([0, 5, 9]),
                          p_launch=0.5, p_mem=0.4, p_comm=0.3, p_sync=rng.choice([0, 0.15]), p_event_sync=rng.choice([0, 0.1]),
                          streams=rng.choice([(7,), (7, 9)]), max_children=2, max_depth=2, ops_per_step=(1, 2), pre_ops=1, post_ops=1,
                          base=rng.choice([0, 1000]), extras=rng.random() < 0.5)
